@@ -5,7 +5,7 @@ use crate::sqlite::*;
 use crate::typegen::member;
 use crate::world::*;
 use crate::c08::{decorate, render};
-use qrlew::{data_type::{value::Value, DataType, DataTyped as _, Variant as _}, relation::{JoinOperator, Relation, Variant as _, SetOperator, SetQuantifier}};
+use qrlew::{data_type::{function::Function as _, value::Value, DataType, DataTyped as _, Variant as _}, relation::{JoinOperator, Relation, Variant as _, SetOperator, SetQuantifier}};
 use serde_json::json;
 use std::panic::{catch_unwind, AssertUnwindSafe};
 
@@ -62,6 +62,44 @@ fn node_sizes(rel: &Relation, out: &mut Vec<String>) {
 }
 fn has_unbounded(rel: &Relation) -> bool { rel.size().max().is_none() || rel.size().len() != 1 || rel.inputs().iter().any(|i| has_unbounded(i)) }
 
+/// some CASE of the relation has a condition that can be NULL (SQL then takes the ELSE branch)
+fn case_on_nullable(rel: &Relation) -> bool {
+    use qrlew::expr::{Expr, function::Function as F};
+    fn go(e: &Expr, input: &DataType) -> bool {
+        match e {
+            Expr::Function(f) => {
+                let a = f.arguments();
+                if f.function() == F::Case && !a.is_empty() { if let Ok(t) = a[0].super_image(input) { if matches!(t, DataType::Optional(_)) { return true; } } }
+                a.iter().any(|x| go(x, input))
+            }
+            Expr::Aggregate(a) => go(a.argument(), input),
+            _ => false,
+        }
+    }
+    crate::ir::all_nodes(rel).iter().any(|n| match n {
+        Relation::Map(m) => { let it = m.input().data_type(); m.projection().iter().any(|e| go(e, &it)) || m.filter().as_ref().map(|e| go(e, &it)).unwrap_or(false) }
+        _ => false })
+}
+
+/// projections of comparisons against the boundary values of the declared types (text and numeric), also under CASE
+fn cmp_query(r: &mut Rng) -> (String, Vec<Col>) {
+    let (t, cols): (&str, Vec<(&str, Vec<&str>)>) = match r.below(3) {
+        0 => ("users", vec![("city", vec!["'Paris'", "'Lyon'", "'Nice'", "'M'"]), ("age", vec!["18", "90", "50"]), ("income", vec!["0", "1000", "3.5"]), ("score", vec!["0", "10"])]),
+        1 => ("orders", vec![("status", vec!["'new'", "'paid'", "'sent'", "'o'"]), ("amount", vec!["0", "500", "250.5"]), ("user_id", vec!["0", "50"])]),
+        _ => ("items", vec![("qty", vec!["1", "10"]), ("price", vec!["0", "100"]), ("order_id", vec!["0", "200"])]),
+    };
+    let mut items = vec![]; let mut out = vec![];
+    for i in 0..r.range(1, 4) {
+        let (c, ks) = r.pick(&cols).clone();
+        let op = *r.pick(&[">=", "<=", ">", "<", "=", "<>"]);
+        let k = *r.pick(&ks);
+        let cmp = if r.chance(1, 4) { format!("{} {} t.{}", k, op, c) } else { format!("t.{} {} {}", c, op, k) };
+        let e = match r.below(4) { 0 => format!("CASE WHEN {} THEN 1 ELSE 0 END", cmp), 1 => format!("NOT ({})", cmp), _ => cmp };
+        items.push(format!("{} AS b{}", e, i)); out.push(Col { name: format!("b{}", i), num: true });
+    }
+    (format!("SELECT {} FROM {} AS t", items.join(", "), t), out)
+}
+
 pub fn run(prop: &str, outdir: &str, seed: u64, thorough: bool) -> serde_json::Value {
     let w = world();
     let mut rng = Rng::new(seed ^ 0xC07);
@@ -74,7 +112,7 @@ pub fn run(prop: &str, outdir: &str, seed: u64, thorough: bool) -> serde_json::V
         let mut r = rng.fork();
         if i % 10 == 9 { data = gen_data(&mut r, &w.specs, 12); db = Db::new(&w.specs, &data); }
         let depth = r.range(0, 2) as u32;
-        let (q0, cols) = { let mut g = QGen::new(&mut r, &w.specs); g.query(depth) };
+        let (q0, cols) = if prop == "C07" && r.chance(1, 6) { st.bump("comparison_projection_queries"); cmp_query(&mut r) } else { let mut g = QGen::new(&mut r, &w.specs); g.query(depth) };
         let is_set = q0.contains(" UNION ") || q0.contains(" INTERSECT ") || q0.contains(" EXCEPT ");
         let (sql, _) = if is_set { (q0.clone(), false) } else { decorate(&mut r, &q0, &cols) };
         let rel = match catch_unwind(AssertUnwindSafe(|| to_relation(&w, &sql))) { Ok(Ok(rel)) => rel, Ok(Err(_)) => { st.bump("query_rejected"); continue; } Err(_) => { st.bump("query_panicked"); continue; } };
@@ -110,7 +148,7 @@ pub fn run(prop: &str, outdir: &str, seed: u64, thorough: bool) -> serde_json::V
                         reported = true;
                         let nullish = matches!(v, SV::Null);
                         st.violation(json!({"kind": if nullish { "null-in-non-optional-column" } else { "value-outside-declared-type" },"query":sql,"column":f.name(),"declared_type":t.to_string(),"value":v.json(),
-                            "class": if nullish && crate::ir::all_nodes(&rel).iter().any(|n| matches!(n, Relation::Reduce(_))) { "aggregate-over-empty-or-null-input" } else { "other" }}));
+                            "class": if nullish && crate::ir::all_nodes(&rel).iter().any(|n| matches!(n, Relation::Reduce(_))) { "aggregate-over-empty-or-null-input" } else if case_on_nullable(&rel) { "case-on-nullable-condition" } else { "other" }}));
                     }
                 }
             }
